@@ -47,12 +47,25 @@ def gen_case(rng):
             v[np.array([rng.random() < 0.15 for _ in range(v.size)]).reshape(v.shape)] = np.nan
         elif pat == 'all':
             v[...] = np.nan
+        if rng.random() < 0.2 and v.size:
+            # infinities are values, not missing data
+            for _ in range(rng.randint(1, 3)):
+                j = rng.randrange(v.size)
+                if v.ravel()[j] == v.ravel()[j]:
+                    v.ravel()[j] = rng.choice([np.inf, -np.inf])
+            pat += '+inf'
     k = rng.randrange(nd)
     lab = sp["labels"][k]
     n = len(lab)
     c = {"what": what, "a": sp, "k": k, "by_pos": rng.random() < 0.5, "pat": pat}
     if what == 'sortkey':
         perm = rng.sample(range(n), n)
+        c["ranktype"] = rng.choice(['int', 'int', 'frac', 'str'])
+        if c["ranktype"] != 'int':
+            # keys of mixed type / width: the first label's key is the integer 0 (or a one-letter string), the others are
+            # fractions (longer strings) in rank order
+            j = perm.index(0)
+            perm[0], perm[j] = perm[j], perm[0]
         c["rank"] = perm          # rank of label i
         c["keyform"] = rng.choice(['dict', 'callable'])
     elif what == 'take_axis':
@@ -110,12 +123,14 @@ def check(case, ctx):
         order = sorted(range(n), key=lambda i: lab[i])
         common.expect(ctx, ID, "sort", label, res, exc, exp=moved(order))
     elif what == 'sortkey':
-        rank = {lab[i]: r for i, r in enumerate(case["rank"])}
+        rt = case.get("ranktype", 'int')
+        kv = (lambda r: r) if rt == 'int' else (lambda r: 0 if r == 0 else r * 0.25) if rt == 'frac' else (lambda r: 'a' if r == 0 else 'a%02d' % r)
+        rank = {lab[i]: kv(r) for i, r in enumerate(case["rank"])}
         key = dict(rank) if case["keyform"] == 'dict' else (lambda x: rank[x.item() if isinstance(x, np.generic) else x])
         if case["keyform"] == 'dict' and sp["kinds"][k] != 's':
             key = {gen.np_labels([l], sp["kinds"][k])[0]: r for l, r in rank.items()}
             key.update(rank)
-        label = "a.sort_axis(axis=%r, key=%s ranks %r)" % (axis, case["keyform"], case["rank"]) + base
+        label = "a.sort_axis(axis=%r, key=%s %s ranks %r)" % (axis, case["keyform"], rt, case["rank"]) + base
         res, exc = ctx.call(label, lambda: a.sort_axis(axis=axis, key=key), operands=(a,), meta='carry')
         order = sorted(range(n), key=lambda i: case["rank"][i])
         common.expect(ctx, ID, "sortkey", label, res, exc, exp=moved(order))
